@@ -1,1 +1,2 @@
 
+#[cfg(any(not(verif_select), verif_gk))] #[path = "/verif/harness/ntp_proto/gk_probe_system.rs"] pub(crate) mod gk;
